@@ -104,6 +104,117 @@ pub fn topologies(thorough: bool) -> Vec<Topo> {
         f[6].speed_limits = vec![(0.0, 2000.0, 10.0)];
         v.push(finish("two-sidings", f, vec![("W", vec![1]), ("E", vec![9])], vec![(0, 1, true), (1, 0, false)]));
     }
+    // T7: double track with a crossover, single-track terminals (coincident switch points are not valid, so the
+    // crossover is a link of its own):  YW(1) -> [A1(2) | B1(3)];  A1 -> A2(4) | X(6) -> B2(5);  B1 -> B2;  [A2 | B2] -> YE(7)
+    // (opposing trains pass each other on parallel tracks: free paths are re-routed around the moved train; a train
+    // following another one and blocked behind it is rewound when its tentative advance leaves a third train no path)
+    {
+        // first section 1.2 km: a 1080 m train held at the second section keeps its tail 120 m into A1, so a follower
+        // held behind it still stands on the single-track terminal link
+        let lens = [YARD, 1200.0, 1200.0, 4000.0, 4000.0, 300.0, YARD];
+        let mut f: Vec<FwdLink> = lens.iter().map(|l| FwdLink::new(*l, 20.0)).collect();
+        let set = |f: &mut Vec<FwdLink>, i: usize, prev: usize, prev_alt: usize, next: usize, next_alt: usize| {
+            f[i - 1].prev = prev;
+            f[i - 1].prev_alt = prev_alt;
+            f[i - 1].next = next;
+            f[i - 1].next_alt = next_alt;
+        };
+        set(&mut f, 1, 0, 0, 2, 3);
+        set(&mut f, 2, 1, 0, 4, 6);
+        set(&mut f, 3, 1, 0, 5, 0);
+        set(&mut f, 4, 2, 0, 7, 0);
+        set(&mut f, 5, 3, 6, 7, 0);
+        set(&mut f, 6, 2, 0, 5, 0);
+        set(&mut f, 7, 4, 5, 0, 0);
+        f[2].speed_limits = vec![(0.0, 1200.0, 12.0)];
+        f[4].speed_limits = vec![(0.0, 4000.0, 12.0)];
+        f[5].speed_limits = vec![(0.0, 300.0, 8.0)];
+        v.push(finish("double-track", f, vec![("W", vec![1]), ("E", vec![7])], vec![(0, 1, true), (1, 0, false)]));
+    }
+    // T8: two-track terminals joined by double track with one crossover
+    //     W1(1) -> A(3) -> E1(5) | X(7) -> E2(6);   W2(2) -> B(4) -> E2(6)
+    {
+        let lens = [YARD, YARD, 5000.0, 5000.0, YARD, YARD, 300.0];
+        let mut f: Vec<FwdLink> = lens.iter().map(|l| FwdLink::new(*l, 20.0)).collect();
+        let set = |f: &mut Vec<FwdLink>, i: usize, prev: usize, prev_alt: usize, next: usize, next_alt: usize| {
+            f[i - 1].prev = prev;
+            f[i - 1].prev_alt = prev_alt;
+            f[i - 1].next = next;
+            f[i - 1].next_alt = next_alt;
+        };
+        set(&mut f, 1, 0, 0, 3, 0);
+        set(&mut f, 2, 0, 0, 4, 0);
+        set(&mut f, 3, 1, 0, 5, 7);
+        set(&mut f, 4, 2, 0, 6, 0);
+        set(&mut f, 5, 3, 0, 0, 0);
+        set(&mut f, 6, 4, 7, 0, 0);
+        set(&mut f, 7, 3, 0, 6, 0);
+        f[1].speed_limits = vec![(0.0, YARD, 12.0)];
+        f[3].speed_limits = vec![(0.0, 5000.0, 12.0)];
+        f[5].speed_limits = vec![(0.0, YARD, 12.0)];
+        f[6].speed_limits = vec![(0.0, 300.0, 8.0)];
+        v.push(finish("double-track-yards", f, vec![("W", vec![1, 2]), ("E", vec![5, 6])], vec![(0, 1, true), (1, 0, false)]));
+    }
+    // T9: two double-track sections joined by a single-track bridge:
+    //     YW(1) -> [A1(2) | B1(3)] -> BR(4) -> [A2(5) | B2(6)] -> YE(7)
+    // (trains are held with the tail on the bridge; followers are held mid-route behind them)
+    {
+        let lens = [YARD, 1500.0, 1500.0, 600.0, 1500.0, 1500.0, YARD];
+        let mut f: Vec<FwdLink> = lens.iter().map(|l| FwdLink::new(*l, 20.0)).collect();
+        let set = |f: &mut Vec<FwdLink>, i: usize, prev: usize, prev_alt: usize, next: usize, next_alt: usize| {
+            f[i - 1].prev = prev;
+            f[i - 1].prev_alt = prev_alt;
+            f[i - 1].next = next;
+            f[i - 1].next_alt = next_alt;
+        };
+        set(&mut f, 1, 0, 0, 2, 3);
+        set(&mut f, 2, 1, 0, 4, 0);
+        set(&mut f, 3, 1, 0, 4, 0);
+        set(&mut f, 4, 2, 3, 5, 6);
+        set(&mut f, 5, 4, 0, 7, 0);
+        set(&mut f, 6, 4, 0, 7, 0);
+        set(&mut f, 7, 5, 6, 0, 0);
+        f[2].speed_limits = vec![(0.0, 1500.0, 12.0)];
+        f[5].speed_limits = vec![(0.0, 1500.0, 12.0)];
+        v.push(finish("bridge", f, vec![("W", vec![1]), ("E", vec![7])], vec![(0, 1, true), (1, 0, false)]));
+    }
+    // T10: full double track with a scissors crossover in the middle, two-track terminals:
+    //     W1(1) -> A1(3) -> MA(11) -> A2(5) -> E1(7);   W2(2) -> B1(4) -> MB(12) -> B2(6) -> E2(8)
+    //     crossovers X1(9): A1 -> B2 and X2(10): B1 -> A2  (switch points kept apart by MA / MB)
+    // (variant "scissors-locked": the two crossovers, which cross each other, are declared mutually exclusive)
+    for locked in [false, true] {
+        let lens = [YARD, YARD, 1200.0, 1200.0, 1200.0, 1200.0, YARD, YARD, 300.0, 300.0, 300.0, 300.0];
+        let mut f: Vec<FwdLink> = lens.iter().map(|l| FwdLink::new(*l, 20.0)).collect();
+        let set = |f: &mut Vec<FwdLink>, i: usize, prev: usize, prev_alt: usize, next: usize, next_alt: usize| {
+            f[i - 1].prev = prev;
+            f[i - 1].prev_alt = prev_alt;
+            f[i - 1].next = next;
+            f[i - 1].next_alt = next_alt;
+        };
+        set(&mut f, 1, 0, 0, 3, 0);
+        set(&mut f, 2, 0, 0, 4, 0);
+        set(&mut f, 3, 1, 0, 11, 9);
+        set(&mut f, 4, 2, 0, 12, 10);
+        set(&mut f, 11, 3, 0, 5, 0);
+        set(&mut f, 12, 4, 0, 6, 0);
+        set(&mut f, 9, 3, 0, 6, 0);
+        set(&mut f, 10, 4, 0, 5, 0);
+        set(&mut f, 5, 11, 10, 7, 0);
+        set(&mut f, 6, 12, 9, 8, 0);
+        set(&mut f, 7, 5, 0, 0, 0);
+        set(&mut f, 8, 6, 0, 0, 0);
+        f[1].speed_limits = vec![(0.0, YARD, 12.0)];
+        f[3].speed_limits = vec![(0.0, 1200.0, 12.0)];
+        f[5].speed_limits = vec![(0.0, 1200.0, 12.0)];
+        f[7].speed_limits = vec![(0.0, YARD, 12.0)];
+        f[8].speed_limits = vec![(0.0, 300.0, 8.0)];
+        f[9].speed_limits = vec![(0.0, 300.0, 8.0)];
+        if locked {
+            f[8].lockout = vec![10];
+            f[9].lockout = vec![9];
+        }
+        v.push(finish(if locked { "scissors-locked" } else { "scissors" }, f, vec![("W", vec![1, 2]), ("E", vec![7, 8])], vec![(0, 1, true), (1, 0, false)]));
+    }
     // T6: intermediate terminal: YW(1) -> MID(2, 12 km, also a destination/origin) -> [M(3) | SD(4)] -> S2(5) -> YE(6)
     // (trains with different destinations follow each other; one terminates on the link in which the other is held
     // at the turnout)
